@@ -32,6 +32,7 @@ var c05Spellings = map[string]*vSpelling{
 	"backslash": {tag: map[string]string{"t2": `t\2`, "t1": `a\b\\c`}},
 	"unicode":   {tag: map[string]string{"t1": "größe", "t2": "日本 語"}, sep: []string{" ", "   "}},
 	"punct":     {tag: map[string]string{"t1": "k=v;x", "t2": "'q'"}},
+	"duptags":   {dup: true},
 	"opteq":     {opt: map[string]string{"strip=/x": "strip=/v=1 prepend=/p=q= host=dst flag"}, sep: []string{" ", "\t"}},
 }
 
@@ -136,7 +137,7 @@ func TestVerifC05(t *testing.T) {
 	var wg sync.WaitGroup
 	var sampleMu sync.Mutex
 	var samples []string
-	spNames := []string{"spaces", "backslash", "unicode", "punct", "opteq"}
+	spNames := []string{"spaces", "backslash", "unicode", "punct", "opteq", "duptags"}
 	for w := 0; w < runtime.NumCPU(); w++ {
 		wg.Add(1)
 		go func() {
